@@ -40,3 +40,9 @@ LP/DriverSound.vos LP/DriverSound.vok LP/DriverSound.required_vos: LP/DriverSoun
 LP/Agree.vo LP/Agree.glob LP/Agree.v.beautified LP/Agree.required_vo: LP/Agree.v LP/DriverSound.vo LP/Unique.vo
 LP/Agree.vio: LP/Agree.v LP/DriverSound.vio LP/Unique.vio
 LP/Agree.vos LP/Agree.vok LP/Agree.required_vos: LP/Agree.v LP/DriverSound.vos LP/Unique.vos
+Gen/Sites.vo Gen/Sites.glob Gen/Sites.v.beautified Gen/Sites.required_vo: Gen/Sites.v 
+Gen/Sites.vio: Gen/Sites.v 
+Gen/Sites.vos Gen/Sites.vok Gen/Sites.required_vos: Gen/Sites.v 
+Log/LogModel.vo Log/LogModel.glob Log/LogModel.v.beautified Log/LogModel.required_vo: Log/LogModel.v Gen/Sites.vo
+Log/LogModel.vio: Log/LogModel.v Gen/Sites.vio
+Log/LogModel.vos Log/LogModel.vok Log/LogModel.required_vos: Log/LogModel.v Gen/Sites.vos
